@@ -418,6 +418,15 @@ def _run(case, ctx, d):
     inner = set(bounds[1:-1]) | set(b - 1 for b in bounds[1:-1])
     sampled = False
     held = []          # results the caller keeps: they must still be right after all the later reads
+    # the row selector written as a one-element tuple (reader[rows,] is reader[rows])
+    if n >= 3:
+        for it1 in [(slice(1, n - 1),), (n // 2,), (slice(None),)] + ([([0, n - 1],), (np.array([1, n - 2]),)] if lists and n >= 4 else []):
+            ctx.count(1, cell=(be, lay['dtype'], 'tuple1', 'cols0'))
+            rr = call(lambda: rd[it1])
+            e1 = A[it1] if not isinstance(it1[0], int) else A[it1[0]][None, :]
+            if not rr.ok or same(rr.value, e1):
+                ctx.violation('read_mismatch' if rr.ok else 'read_raised', dict(case, item=repr(it1)), 'reader[%r]: %s' % (it1, rr.exc if not rr.ok else same(rr.value, e1)), feats, tb=rr.tb)
+                break
     for it in items:
         if isinstance(it, slice):
             rows = range(*it.indices(n))
